@@ -1796,14 +1796,30 @@ pub fn eq_secret_meta(a: &SecretMeta, b: &SecretMeta) -> Result<(), String> {
     }
 }
 
-/// Projection of a secret: kind + JSON of the exposed `Serialize` impl, with
-/// every nested custom-field meta replaced by the full meta projection.
+/// Projection of a secret: kind + JSON of the exposed `Serialize` impl +
+/// an explicit projection of the user data (the `Serialize` impl skips user
+/// data that only carries a comment, and nested metas only compare
+/// kind/label/urn under the SDK's `PartialEq`).
 pub fn secret_projection(s: &Secret) -> Value {
     let mut v = json_of(s);
-    // nested rows: the Serialize impl of SecretMeta is complete (kind, flags,
-    // label, tags, favorite, urn, ownerId, dateCreated, lastUpdated)
+    let ud = s.user_data();
+    let fields: Vec<Value> = ud
+        .fields()
+        .iter()
+        .map(|r| {
+            json!({
+                "id": r.id().to_string(),
+                "meta": secret_meta_projection(r.meta()),
+                "secret": secret_projection(r.secret()),
+            })
+        })
+        .collect();
     if let Value::Object(m) = &mut v {
         m.insert("__kind".into(), json!(format!("{:?}", s.kind())));
+        m.insert(
+            "__user_data".into(),
+            json!({ "fields": fields, "comment": ud.comment(), "recovery_note": ud.recovery_note() }),
+        );
     }
     v
 }
@@ -2240,3 +2256,146 @@ pub fn types() -> Vec<TypeDef> {
 
 /// Families whose values may contain hash-ordered collections.
 pub const HASH_ORDER_FAMILIES: &[&str] = &["secret", "wire-sets"];
+
+// ---------------------------------------------------------------------------
+// sensitivity self-test (`sv codec-selftest`): the C14 oracle against
+// deliberately broken codecs and the projections against single-field edits
+// ---------------------------------------------------------------------------
+
+mod mutants {
+    use async_trait::async_trait;
+    use binary_stream::futures::{BinaryReader, BinaryWriter, Decodable, Encodable};
+    use std::io::Result;
+    use tokio::io::{AsyncRead, AsyncSeek, AsyncWrite};
+
+    /// decoder reads the two fields in the wrong order
+    #[derive(Default, Debug, PartialEq, Eq)]
+    pub struct Swapped(pub String, pub String);
+    #[async_trait]
+    impl Encodable for Swapped {
+        async fn encode<W: AsyncWrite + AsyncSeek + Unpin + Send>(&self, w: &mut BinaryWriter<W>) -> Result<()> {
+            w.write_string(&self.0).await?;
+            w.write_string(&self.1).await?;
+            Ok(())
+        }
+    }
+    #[async_trait]
+    impl Decodable for Swapped {
+        async fn decode<R: AsyncRead + AsyncSeek + Unpin + Send>(&mut self, r: &mut BinaryReader<R>) -> Result<()> {
+            self.1 = r.read_string().await?;
+            self.0 = r.read_string().await?;
+            Ok(())
+        }
+    }
+
+    /// length written as u16
+    #[derive(Default, Debug, PartialEq, Eq)]
+    pub struct Len16(pub Vec<u8>);
+    #[async_trait]
+    impl Encodable for Len16 {
+        async fn encode<W: AsyncWrite + AsyncSeek + Unpin + Send>(&self, w: &mut BinaryWriter<W>) -> Result<()> {
+            w.write_u16(self.0.len() as u16).await?;
+            w.write_bytes(&self.0).await?;
+            Ok(())
+        }
+    }
+    #[async_trait]
+    impl Decodable for Len16 {
+        async fn decode<R: AsyncRead + AsyncSeek + Unpin + Send>(&mut self, r: &mut BinaryReader<R>) -> Result<()> {
+            let n = r.read_u16().await?;
+            self.0 = r.read_bytes(n as usize).await?;
+            Ok(())
+        }
+    }
+
+    /// encodes the wall clock (non-deterministic)
+    #[derive(Default, Debug, PartialEq, Eq)]
+    pub struct Clocked(pub u8);
+    #[async_trait]
+    impl Encodable for Clocked {
+        async fn encode<W: AsyncWrite + AsyncSeek + Unpin + Send>(&self, w: &mut BinaryWriter<W>) -> Result<()> {
+            static N: std::sync::atomic::AtomicU64 = std::sync::atomic::AtomicU64::new(0);
+            w.write_u8(self.0).await?;
+            w.write_u64(N.fetch_add(1, std::sync::atomic::Ordering::SeqCst)).await?;
+            Ok(())
+        }
+    }
+    #[async_trait]
+    impl Decodable for Clocked {
+        async fn decode<R: AsyncRead + AsyncSeek + Unpin + Send>(&mut self, r: &mut BinaryReader<R>) -> Result<()> {
+            self.0 = r.read_u8().await?;
+            let _ = r.read_u64().await?;
+            Ok(())
+        }
+    }
+}
+
+/// Returns the number of failed expectations (0 = the oracles are sensitive).
+pub fn selftest() -> i32 {
+    let mut bad = 0;
+    let mut expect = |what: &str, ok: bool| {
+        println!("{} {}", if ok { "ok  " } else { "FAIL" }, what);
+        if !ok {
+            bad += 1;
+        }
+    };
+    // 1. the generic oracle finds a field swap, a u16 length and a non-deterministic encoder
+    let found = |f: &dyn Fn(&[u8]) -> (CaseInfo, CheckResult), prefix: &str| -> bool {
+        (0u32..400).any(|i| {
+            let e: Vec<u8> = (0..64).map(|k| (i.wrapping_mul(2654435761).wrapping_add(k * 97) >> 7) as u8).collect();
+            matches!(f(&e).1, Err(ref x) if x.signature.starts_with(prefix))
+        })
+    };
+    expect(
+        "swapped fields are reported as roundtrip-mismatch",
+        found(&|e| c14_bin::<mutants::Swapped>("Swapped", e, true, |u| mutants::Swapped(u.string(), u.string()), eq_std), "roundtrip-mismatch/Swapped"),
+    );
+    expect(
+        "a u16 length prefix is reported (payloads >= 64 KiB)",
+        found(&|e| c14_bin::<mutants::Len16>("Len16", e, true, |u| mutants::Len16(u.blob()), eq_std), "roundtrip-mismatch/Len16")
+            || found(&|e| c14_bin::<mutants::Len16>("Len16", e, true, |u| mutants::Len16(u.blob()), eq_std), "decode-rejects-own-encoding/Len16"),
+    );
+    expect(
+        "a non-deterministic encoder is reported",
+        found(&|e| c14_bin::<mutants::Clocked>("Clocked", e, true, |u| mutants::Clocked(u.byte()), eq_std), "nondeterministic/same-value/Clocked"),
+    );
+    // 2. projections see single-field edits (also inside nested custom fields)
+    let e: Vec<u8> = (0..200u32).map(|k| (k * 37 + 11) as u8).collect();
+    let base = g_secret_meta(&mut U::new(&e));
+    let edits: Vec<(&str, Box<dyn Fn(&mut SecretMeta)>)> = vec![
+        ("label", Box::new(|m| m.set_label("other".into()))),
+        ("favorite", Box::new(|m| m.set_favorite(!m.favorite()))),
+        ("tags", Box::new(|m| {
+            m.tags_mut().insert("extra-tag".into());
+        })),
+        ("owner_id", Box::new(|m| m.set_owner_id(Some("someone-else".into())))),
+        ("urn", Box::new(|m| m.set_urn(Some("urn:sos:selftest".parse().expect("urn"))))),
+        ("flags", Box::new(|m| m.flags_mut().toggle(SecretFlags::VERIFY))),
+        ("date_created", Box::new(|m| m.set_date_created(OffsetDateTime::from_unix_timestamp(12345).expect("ts").into()))),
+        ("last_updated", Box::new(|m| m.set_last_updated(OffsetDateTime::from_unix_timestamp(54321).expect("ts").into()))),
+    ];
+    for (name, edit) in &edits {
+        let mut m = base.clone();
+        edit(&mut m);
+        expect(&format!("SecretMeta projection sees a change of {}", name), eq_secret_meta(&base, &m).is_err());
+    }
+    expect("SecretMeta projection accepts an equal value", eq_secret_meta(&base, &base.clone()).is_ok());
+    for kind in SECRET_TYPES {
+        let a = g_secret_of(&mut U::new(&e), kind);
+        let mut b = a.clone();
+        // edit a nested custom field's meta (invisible to the SDK's PartialEq)
+        let mut row = g_secret_row(&mut U::new(&e[3..]));
+        row.meta_mut().set_favorite(true);
+        let mut row2 = row.clone();
+        row2.meta_mut().set_favorite(false);
+        b.user_data_mut().push(row);
+        let mut c = a.clone();
+        c.user_data_mut().push(row2);
+        expect(&format!("Secret::{:?} projection sees a nested meta edit", kind), eq_secret(&b, &c).is_err());
+        expect(&format!("Secret::{:?} projection accepts a clone", kind), eq_secret(&a, &a.clone()).is_ok());
+        let mut d = a.clone();
+        d.user_data_mut().set_comment(Some("selftest-comment-that-differs".into()));
+        expect(&format!("Secret::{:?} projection sees a comment edit", kind), eq_secret(&a, &d).is_err());
+    }
+    bad
+}
